@@ -10,13 +10,14 @@ theorem drain_complete (l : Lane) : l.complete.drain = l.drain := by
   | some p =>
     cases todo with
     | nil =>
-      by_cases h : p.code ≠ 0 <;> simp [Lane.complete, Lane.drain, drainFrom, h]
+      by_cases h : p.code ≠ 0 <;> simp [Lane.complete, Lane.drain, drainFrom, launch, h]
     | cons q qs =>
       by_cases h : p.code ≠ 0
       · simp [Lane.complete, Lane.drain, drainFrom, h]
       · simp only [Lane.complete, Lane.drain, if_neg h]
         conv => rhs; unfold drainFrom
-        simp only [if_neg h]
+        simp only [if_neg h, launch]
+        cases q.spawn <;> simp [drainFrom]
 
 theorem map_drain_modifyAt (ls : List Lane) (i : Nat) :
     (modifyAt Lane.complete ls i).map Lane.drain = ls.map Lane.drain := by
@@ -36,24 +37,35 @@ theorem runSched_drain (ls : List Lane) (sched : List Nat) :
     rw [ih]
     exact map_drain_modifyAt ls i
 
-theorem drainFrom_some (done : List Proc) (p : Proc) (qs : List Proc) :
+/-- A running (hence startable) process followed by the rest of its sub-list: the lane ends having
+    dealt with exactly the prefix through the first instruction that stops. -/
+theorem drainFrom_some (done : List Proc) (p : Proc) (qs : List Proc) (hp : p.spawn = none) :
     drainFrom done (some p) qs =
       ⟨done ++ takeThrough (p :: qs), none, (p :: qs).drop (takeThrough (p :: qs)).length⟩ := by
   induction qs generalizing done p with
-  | nil => by_cases h : p.code ≠ 0 <;> simp [drainFrom, takeThrough, h]
+  | nil => by_cases h : p.code ≠ 0 <;> simp [drainFrom, takeThrough, Proc.stops, hp, h]
   | cons q qs ih =>
     unfold drainFrom
     by_cases h : p.code ≠ 0
-    · simp [takeThrough, h]
-    · simp only [if_neg h]
-      rw [ih]
-      conv => rhs; unfold takeThrough
-      simp [if_neg h]
+    · simp [takeThrough, Proc.stops, hp, h]
+    · have hz : p.code = 0 := by omega
+      simp only [if_neg h]
+      cases hq : q.spawn with
+      | some k =>
+        simp [takeThrough, Proc.stops, hp, hz, hq]
+      | none =>
+        simp only []
+        rw [ih _ _ hq]
+        conv => rhs; unfold takeThrough
+        simp [Proc.stops, hp, hz]
 
 theorem drain_start (ps : List Proc) : (Lane.start ps).drain = finalLane ps := by
   cases ps with
-  | nil => simp [Lane.start, Lane.drain, drainFrom, finalLane, takeThrough]
-  | cons p ps => simp [Lane.start, Lane.drain, drainFrom_some, finalLane]
+  | nil => simp [Lane.start, launch, Lane.drain, drainFrom, finalLane, takeThrough]
+  | cons p ps =>
+    cases hp : p.spawn with
+    | some k => simp [Lane.start, launch, hp, Lane.drain, drainFrom, finalLane, takeThrough, Proc.stops]
+    | none => simp [Lane.start, launch, hp, Lane.drain, drainFrom_some, finalLane]
 
 /-- The lanes once `asyncio.gather` has returned, whatever the schedule. -/
 theorem final_lanes (cs : List ACommand) (sched : List Nat) :
@@ -81,70 +93,133 @@ theorem alanesOf_procs (cs : List ACommand) : (alanesOf cs).map (·.procs) = lan
   | nil => rfl
   | cons c cs ih => simp [alanesOf, lanesOf, alanesOfCmd, ih, Function.comp_def]
 
-/-- Results of a lane: one per process actually run, in the order of the sub-list. -/
-def ALane.results (l : ALane) : List Result := (takeThrough l.procs).map (mkResultAsync l.save l.text)
+theorem alanes_all_save (cs : List ACommand) (hs : ∀ c ∈ cs, c.save = true) :
+    ∀ l ∈ alanesOf cs, l.save = true := by
+  induction cs with
+  | nil => simp [alanesOf]
+  | cons c cs ih =>
+    intro l hl
+    simp only [alanesOf, alanesOfCmd, List.mem_append, List.mem_map] at hl
+    cases hl with
+    | inl h => obtain ⟨ps, _, rfl⟩ := h; exact hs c (by simp)
+    | inr h => exact ih (fun c' hc' => hs c' (by simp [hc'])) l h
 
-def toErr (r : Result) : CmdErr := ⟨r.id, r.code⟩
+/-- Items of a lane: one per instruction attempted, in the order of the sub-list. -/
+def ALane.items (l : ALane) : List Item := (takeThrough l.procs).map (mkItem l.save l.text)
 
-def ALane.errors (l : ALane) : List CmdErr := ((l.results).filter (fun r => r.code ≠ 0)).map toErr
+/-- Results of a lane: one per process that existed, in the order of the sub-list. -/
+def ALane.results (l : ALane) : List Result :=
+  ((takeThrough l.procs).filter Proc.ran).map (mkResultAsync l.save l.text)
 
-/-- Flatten `cmdOut` (results and nested sub-list results) to the sequence of results. -/
-def slotResults : List Slot → List Result
+def ALane.errors (l : ALane) : List CmdErr := l.items.flatMap itemErrors
+
+/-- Flatten `cmdOut` (items and nested sub-list items) to the sequence of items. -/
+def slotItems : List Slot → List Item
   | [] => []
-  | .res r :: ss => r :: slotResults ss
-  | .sub rs :: ss => rs ++ slotResults ss
+  | .one i :: ss => i :: slotItems ss
+  | .sub is :: ss => is ++ slotItems ss
 
-theorem slotResults_append (a b : List Slot) : slotResults (a ++ b) = slotResults a ++ slotResults b := by
+/-- The `SubprocessResult`s among some items. -/
+def itemResults : List Item → List Result
+  | [] => []
+  | .res r :: is => r :: itemResults is
+  | .exc _ _ :: is => itemResults is
+
+theorem itemResults_append (a b : List Item) : itemResults (a ++ b) = itemResults a ++ itemResults b := by
   induction a with
   | nil => rfl
-  | cons s ss ih => cases s <;> simp [slotResults, ih]
+  | cons i is ih => cases i <;> simp [itemResults, ih]
+
+theorem itemResults_flatMap {α} (f : α → List Item) (xs : List α) :
+    itemResults (xs.flatMap f) = xs.flatMap (fun x => itemResults (f x)) := by
+  induction xs with
+  | nil => rfl
+  | cons x xs ih => simp [List.flatMap_cons, itemResults_append, ih]
+
+/-- Flatten `cmdOut` to the sequence of `SubprocessResult`s it holds. -/
+def slotResults (ss : List Slot) : List Result := itemResults (slotItems ss)
+
+theorem slotItems_append (a b : List Slot) : slotItems (a ++ b) = slotItems a ++ slotItems b := by
+  induction a with
+  | nil => rfl
+  | cons s ss ih => cases s <;> simp [slotItems, ih]
 
 theorem slotErrors_append (a b : List Slot) : slotErrors (a ++ b) = slotErrors a ++ slotErrors b := by
   induction a with
   | nil => rfl
   | cons s ss ih => cases s <;> simp [slotErrors, ih]
 
-theorem slotErrors_eq (ss : List Slot) :
-    slotErrors ss = ((slotResults ss).filter (fun r => r.code ≠ 0)).map toErr := by
+theorem slotErrors_eq (ss : List Slot) : slotErrors ss = (slotItems ss).flatMap itemErrors := by
   induction ss with
   | nil => rfl
-  | cons s ss ih =>
-    cases s with
-    | res r =>
-      by_cases h : r.code ≠ 0
-      · simp [slotErrors, slotResults, ih, h, toErr]
-      · have : r.code = 0 := by omega
-        simp [slotErrors, slotResults, ih, this]
-    | sub rs => simp [slotErrors, slotResults, ih, toErr]
+  | cons s ss ih => cases s <;> simp [slotErrors, slotItems, ih]
 
 theorem takeThrough_one (p : Proc) : takeThrough [p] = [p] := by
-  by_cases h : p.code ≠ 0 <;> simp [takeThrough, h]
+  by_cases h : p.stops = true <;> simp [takeThrough, h]
+
+/-- The results among the items of a lane are the results of the processes that existed. -/
+theorem itemResults_items (save text : Bool) (ps : List Proc) :
+    itemResults (ps.map (mkItem save text)) = (ps.filter Proc.ran).map (mkResultAsync save text) := by
+  induction ps with
+  | nil => rfl
+  | cons p ps ih =>
+    cases hp : p.spawn <;> simp [mkItem, hp, itemResults, Proc.ran, ih]
+
+theorem ALane.results_eq (l : ALane) : l.results = itemResults l.items :=
+  (itemResults_items l.save l.text (takeThrough l.procs)).symm
+
+/-- The errors of an item built from an instruction: exactly when the instruction `stops`. -/
+theorem itemErrors_mkItem (save text : Bool) (p : Proc) :
+    itemErrors (mkItem save text p) = if p.stops then [p.error] else [] := by
+  cases hp : p.spawn with
+  | some k => simp [mkItem, hp, itemErrors, Proc.stops, Proc.error]
+  | none =>
+    have hc : (mkResultAsync save text p).code = p.code ∧ (mkResultAsync save text p).id = p.id := by
+      simp only [mkResultAsync]
+      split <;> try split
+      all_goals exact ⟨rfl, rfl⟩
+    by_cases h : p.code ≠ 0
+    · simp [mkItem, hp, itemErrors, Proc.stops, Proc.error, hc.1, hc.2, h]
+    · have hz : p.code = 0 := by omega
+      simp [mkItem, hp, itemErrors, Proc.stops, hc.1, hz]
+
+theorem flatMap_itemErrors (save text : Bool) (ps : List Proc) :
+    (ps.map (mkItem save text)).flatMap itemErrors = (ps.filter Proc.stops).map Proc.error := by
+  induction ps with
+  | nil => rfl
+  | cons p ps ih =>
+    simp only [List.map_cons, List.flatMap_cons, ih, itemErrors_mkItem, List.filter_cons]
+    by_cases h : p.stops = true <;> simp [h]
+
+theorem ALane.errors_eq (l : ALane) :
+    l.errors = ((takeThrough l.procs).filter Proc.stops).map Proc.error :=
+  flatMap_itemErrors l.save l.text (takeThrough l.procs)
 
 /-- What `entrySlots` yields on the final lanes of its entries. -/
 theorem entrySlots_final (save text : Bool) (es : List Entry) (rest : List Lane) :
     let r := entrySlots save text es ((es.map Entry.procs).map finalLane ++ rest)
     r.2 = rest ∧
-    slotResults r.1 = (es.map Entry.procs).flatMap (fun ps => (⟨ps, save, text⟩ : ALane).results) := by
+    slotItems r.1 = (es.map Entry.procs).flatMap (fun ps => (⟨ps, save, text⟩ : ALane).items) := by
   induction es with
-  | nil => simp [entrySlots, slotResults]
+  | nil => simp [entrySlots, slotItems]
   | cons e es ih =>
     simp only [] at ih
     cases e with
     | one p =>
       simp only [List.map_cons, List.cons_append, entrySlots, Entry.procs]
       refine ⟨ih.1, ?_⟩
-      rw [slotResults_append, ih.2]
-      simp [finalLane, takeThrough_one, slotResults, ALane.results]
+      rw [slotItems_append, ih.2]
+      simp [finalLane, takeThrough_one, slotItems, ALane.items]
     | serial ps =>
       simp only [List.map_cons, List.cons_append, entrySlots, Entry.procs]
       refine ⟨ih.1, ?_⟩
-      simp only [slotResults, List.flatMap_cons]
+      simp only [slotItems, List.flatMap_cons]
       rw [ih.2]
-      simp [finalLane, ALane.results]
+      simp [finalLane, ALane.items]
 
 theorem commandSlots_final (c : ACommand) (rest : List Lane) :
     let r := commandSlots c (c.run.lanes.map finalLane ++ rest)
-    r.2 = rest ∧ slotResults r.1 = (alanesOfCmd c).flatMap ALane.results := by
+    r.2 = rest ∧ slotItems r.1 = (alanesOfCmd c).flatMap ALane.items := by
   obtain ⟨run, save, text⟩ := c
   cases run with
   | single p =>
@@ -156,14 +231,14 @@ theorem commandSlots_final (c : ACommand) (rest : List Lane) :
     simp only [] at h
     simpa [commandSlots, ARun.lanes, alanesOfCmd, List.flatMap_map] using h
 
-/-- What `Commands.run` collects from the final lanes: results of the `save` lanes and the errors of
+/-- What `Commands.run` collects from the final lanes: items of the `save` lanes and the errors of
     all lanes, both in declaration order. -/
 theorem collect_final (cs : List ACommand) :
     let r := collect cs ((lanesOf cs).map finalLane)
-    slotResults r.1 = ((alanesOf cs).filter (·.save)).flatMap ALane.results ∧
+    slotItems r.1 = ((alanesOf cs).filter (·.save)).flatMap ALane.items ∧
     r.2 = (alanesOf cs).flatMap ALane.errors := by
   induction cs with
-  | nil => simp [collect, slotResults, alanesOf]
+  | nil => simp [collect, slotItems, alanesOf]
   | cons c cs ih =>
     simp only [] at ih
     have hc := commandSlots_final c ((lanesOf cs).map finalLane)
@@ -171,19 +246,53 @@ theorem collect_final (cs : List ACommand) :
     simp only [lanesOf, List.map_append, collect, alanesOf, List.filter_append, List.flatMap_append]
     rw [hc.1]
     refine ⟨?_, ?_⟩
-    · rw [slotResults_append, ih.1]
+    · rw [slotItems_append, ih.1]
       congr 1
       cases hs : c.save
       · have : (alanesOfCmd c).filter (·.save) = [] := by
           simp [alanesOfCmd, hs]
-        simp [this, slotResults]
+        simp [this, slotItems]
       · have : (alanesOfCmd c).filter (·.save) = alanesOfCmd c := by
           simp [alanesOfCmd, hs]
         simp [this, hc.2]
     · rw [ih.2, slotErrors_eq, hc.2]
       congr 1
-      simp only [List.filter_flatMap, List.map_flatMap]
-      refine congrArg (fun f => List.flatMap f _) (funext fun a => ?_)
-      simp [ALane.errors]
+      simp only [List.flatMap_assoc]
+      rfl
+
+/-- Started processes of a final lane. -/
+theorem laneStarted_final (ps : List Proc) :
+    laneStarted (finalLane ps) = ((takeThrough ps).filter Proc.ran).map (·.id) := by
+  simp [laneStarted, finalLane]
+
+/-- `takeThrough` is what its name says: a prefix; nothing in it but its last element stops. -/
+theorem takeThrough_split (ps : List Proc) :
+    ∃ rest, ps = takeThrough ps ++ rest ∧
+      ((rest = [] ∧ ∀ p ∈ takeThrough ps, p.stops = false) ∨
+       ∃ init p, takeThrough ps = init ++ [p] ∧ (∀ x ∈ init, x.stops = false) ∧ p.stops = true) := by
+  induction ps with
+  | nil => exact ⟨[], rfl, .inl ⟨rfl, by simp [takeThrough]⟩⟩
+  | cons p ps ih =>
+    obtain ⟨rest, h1, h2⟩ := ih
+    by_cases hc : p.stops = true
+    · exact ⟨ps, by simp [takeThrough, hc], .inr ⟨[], p, by simp [takeThrough, hc], by simp, hc⟩⟩
+    · have hz : p.stops = false := by simpa using hc
+      refine ⟨rest, ?_, ?_⟩
+      · simp only [takeThrough, if_neg hc, List.cons_append]
+        rw [← h1]
+      · simp only [takeThrough, if_neg hc]
+        cases h2 with
+        | inl h => exact .inl ⟨h.1, by
+            intro x hx
+            cases hx with
+            | head => exact hz
+            | tail _ hx => exact h.2 x hx⟩
+        | inr h =>
+          obtain ⟨init, q, h3, h4, h5⟩ := h
+          refine .inr ⟨p :: init, q, by simp [h3], ?_, h5⟩
+          intro x hx
+          cases hx with
+          | head => exact hz
+          | tail _ hx => exact h4 x hx
 
 end Pypyr.Cmd
